@@ -36,7 +36,10 @@ class Interrupter:
                 self.frame_stack = []
                 f = frame
                 while f is not None and len(self.frame_stack) < 40:
-                    self.frame_stack.append(f.f_code.co_name)
+                    # frames of the code under test only (the harness and
+                    # multiprocessing have their own __init__ frames)
+                    if f.f_code.co_filename.startswith(self.prefix):
+                        self.frame_stack.append(f.f_code.co_name)
                     f = f.f_back
                 import linecache
                 self.frame_line = linecache.getline(
